@@ -206,7 +206,7 @@ def run(pid, fn, tier, seed, repo_root):
     import signal, time
     try:
         signal.signal(signal.SIGALRM, _on_alarm)
-        _DEADLINE[0] = time.monotonic() + float(os.environ.get("VERIF_BUDGET_S", "1500" if tier == "quick" else "3000")); _arm()
+        _DEADLINE[0] = time.monotonic() + float(os.environ.get("VERIF_BUDGET_S", "900" if tier == "quick" else "2400")); _arm()
     except Exception:
         _DEADLINE[0] = None
     try:
